@@ -3,3 +3,4 @@ NEXT Next
 CONSTANTS
   MaxSegs = 3
 INVARIANT Emit
+INVARIANT EmitOrd
